@@ -345,6 +345,23 @@ def check(res, tier):
         fns = sysfns[i:i + 12]
         src, csrc, exp = build_case(model, fns)
         cases.append((fns, src, csrc, exp, True))
+    # results in every legal representation of the same value: an empty Text / empty list that owns a block (capacity 1 / a
+    # capacity without elements), used where the runtime may take the operand's buffer over (concatenation)
+    EMPTY_C = (CHEAD + 'void leer_text(ddpstring *ret) { ret->str = DDP_ALLOCATE(char, 1); ret->str[0] = 0; ret->cap = 1; }\n'
+               'void leere_liste(ddpintlist *ret) { ret->arr = DDP_ALLOCATE(ddpint, 4); ret->len = 0; ret->cap = 4; }\n')
+    EMPTY_DDP = (HEAD + 'Die Funktion leer_text gibt einen Text zurück,\nist in "ext.c" definiert\nUnd kann so benutzt werden:\n\t"der leere Text"\n\n'
+                 'Die Funktion leere_liste gibt eine Zahlen Liste zurück,\nist in "ext.c" definiert\nUnd kann so benutzt werden:\n\t"die leere Liste"\n\n'
+                 'Der Text s1 ist (der leere Text) verkettet mit "x".\nSchreibe s1 auf eine Zeile.\n'
+                 "Der Text s2 ist (der leere Text) verkettet mit 'y'.\nSchreibe s2 auf eine Zeile.\n"
+                 "Der Text s3 ist 'z' verkettet mit (der leere Text).\nSchreibe s3 auf eine Zeile.\n"
+                 'Der Text s4 ist "w" verkettet mit (der leere Text).\nSchreibe s4 auf eine Zeile.\n'
+                 'Der Text s5 ist (der leere Text) verkettet mit (der leere Text).\nSchreibe (die Länge von s5) auf eine Zeile.\n'
+                 'Der Text s6 ist der leere Text.\nSpeichere s6 verkettet mit "v" in s6.\nSchreibe s6 auf eine Zeile.\n'
+                 'Die Zahlen Liste l1 ist (die leere Liste) verkettet mit 7.\nSchreibe (die Länge von l1) auf eine Zeile.\n'
+                 'Die Zahlen Liste l2 ist 7 verkettet mit (die leere Liste).\nSchreibe (die Länge von l2) auf eine Zeile.\n'
+                 'Die Zahlen Liste l3 ist (die leere Liste) verkettet mit (die leere Liste).\nSchreibe (die Länge von l3) auf eine Zeile.\n'
+                 'Die Zahlen Liste l4 ist (eine Liste, die aus 1, 2 besteht) verkettet mit (die leere Liste).\nSchreibe (die Länge von l4) auf eine Zeile.\n')
+    cases.append(([("leer_text", [], "T", []), ("leere_liste", [], "LZ", [])], EMPTY_DDP, EMPTY_C, "x\ny\nz\nw\n0\nv\n1\n1\n0\n2\n", True))
     cfgs = [pipeline.Config(opt=1, ledger=True), pipeline.Config(opt=1, asan=True)] if quick else \
         [pipeline.Config(opt=0, ledger=True), pipeline.Config(opt=2, ledger=True), pipeline.Config(opt=1, asan=True)]
     sys_cfgs = [pipeline.Config(opt=0, ledger=True), pipeline.Config(opt=2, ledger=True), pipeline.Config(opt=1, asan=True)]
